@@ -487,7 +487,58 @@ func genUnifyCase(t *rapid.T) *UnifyCase {
 		}
 		return model.Tuple(xs...)
 	}
-	switch rapid.IntRange(0, 6).Draw(t, "mode") {
+	switch rapid.IntRange(0, 7).Draw(t, "mode") {
+	case 7: // a system of equations over one pool of variables: chains, aliases, cycles through k bindings
+		names := []string{"a", "b", "c", "d", "e"}
+		k := rapid.IntRange(2, 5).Draw(t, "k")
+		perm := append([]string(nil), names[:k]...)
+		for i := k - 1; i > 0; i-- {
+			j := rapid.IntRange(0, i).Draw(t, "perm")
+			perm[i], perm[j] = perm[j], perm[i]
+		}
+		wrap := func(v *model.Type) *model.Type {
+			switch rapid.IntRange(0, 7).Draw(t, "wrap") {
+			case 0:
+				return v // alias
+			case 1:
+				return model.List(v)
+			case 2:
+				return model.Maybe(v)
+			case 3:
+				return model.Map(model.Str, v)
+			case 4:
+				return model.Obj(model.Field{Name: "p", T: model.Num}, model.Field{Name: "q", T: v})
+			case 5:
+				return model.Fun("f", []*model.Type{v}, model.Num)
+			case 6:
+				return model.Fun("f", []*model.Type{model.Str}, model.List(v))
+			default:
+				return model.List(model.List(v))
+			}
+		}
+		closed := rapid.IntRange(0, 2).Draw(t, "closed") > 0
+		xs, ys := make([]*model.Type, k), make([]*model.Type, k)
+		for i := 0; i < k; i++ {
+			xs[i] = model.Var(perm[i])
+			switch {
+			case i+1 < k:
+				ys[i] = wrap(model.Var(perm[i+1]))
+			case closed:
+				ys[i] = wrap(model.Var(perm[rapid.IntRange(0, k-1).Draw(t, "back")]))
+			default:
+				ys[i] = wrap(gen.Prim(t))
+			}
+			if rapid.IntRange(0, 3).Draw(t, "flip") == 0 {
+				xs[i], ys[i] = ys[i], xs[i]
+			}
+		}
+		// the order in which the equations are met decides which bindings are recorded first
+		for i := k - 1; i > 0; i-- {
+			j := rapid.IntRange(0, i).Draw(t, "order")
+			xs[i], xs[j] = xs[j], xs[i]
+			ys[i], ys[j] = ys[j], ys[i]
+		}
+		c.X, c.Y = model.Tuple(xs...), model.Tuple(ys...)
 	case 0: // equality laws on related types
 		c.X = gen.Type(t, pat)
 		switch rapid.IntRange(0, 2).Draw(t, "rel") {
@@ -598,7 +649,7 @@ func enumTypes(withBot bool) []*model.Type {
 }
 
 func TestC17(t *testing.T) {
-	R.Rule = "pairs (x,y[,z]) of types over num/str/bool/time, variables a,b,c (repeated), list, map, object (permuted field orders), optional, function, argument tuple outermost; built both with fresh nodes and with shared sub-terms; exhaustive over all types of depth<=2/width<=2 over {num,str,'a,'b}; non-trivial = repeated variable inside a container, or model-equal types with different field order, or an occurs-check pair, or shared sub-terms of depth>1"
+	R.Rule = "pairs (x,y[,z]) of types over num/str/bool/time, variables a,b,c (repeated), list, map, object (permuted field orders), optional, function, argument tuple outermost; built both with fresh nodes and with shared sub-terms; exhaustive over all types of depth<=2/width<=2 over {num,str,'a,'b}; systems of 2-5 equations over one variable pool (chains, aliases, cycles closed through k bindings, either side, every meeting order), exhaustively for 3 variables with right sides among {a,b,c,list[a],list[b],list[c],num}; non-trivial = repeated variable inside a container, or model-equal types with different field order, or an occurs-check pair, or shared sub-terms of depth>1"
 	R.Assume = []string{"model.Equal / refMatch (harness) define structural identity and instantiation", "⊥ only generated as container element; ⊤ not generated"}
 	reportKnown(t, "C17")
 	runRegress(t, "C17")
@@ -615,6 +666,27 @@ func TestC17(t *testing.T) {
 					}
 					if !yield(&UnifyCase{X: x, Y: y, Share: share > 0, ShareAcross: share == 2}) {
 						return
+					}
+				}
+			}
+		}
+	})
+	// systems of three equations over the variables a, b, c: every choice of right-hand sides
+	// among {a, b, c, list[a], list[b], list[c], num} in every order of the equations
+	rhs := []*model.Type{model.Var("a"), model.Var("b"), model.Var("c"), model.List(model.Var("a")), model.List(model.Var("b")), model.List(model.Var("c")), model.Num}
+	c17.Each(t, "systems-of-3", func(yield func(*UnifyCase) bool) {
+		vars := []*model.Type{model.Var("a"), model.Var("b"), model.Var("c")}
+		orders := [][]int{{0, 1, 2}, {0, 2, 1}, {1, 0, 2}, {1, 2, 0}, {2, 0, 1}, {2, 1, 0}}
+		for _, ra := range rhs {
+			for _, rb := range rhs {
+				for _, rc := range rhs {
+					r := []*model.Type{ra, rb, rc}
+					for _, o := range orders {
+						x := model.Tuple(vars[o[0]], vars[o[1]], vars[o[2]])
+						y := model.Tuple(r[o[0]], r[o[1]], r[o[2]])
+						if !yield(&UnifyCase{X: x, Y: y}) {
+							return
+						}
 					}
 				}
 			}
